@@ -20,7 +20,7 @@ var effectFreeFuncs = map[string]bool{
 	"(*sync.Mutex).Lock": true, "(*sync.Mutex).Unlock": true, "(*sync.Mutex).TryLock": true,
 	"(*sync.RWMutex).Lock": true, "(*sync.RWMutex).Unlock": true, "(*sync.RWMutex).RLock": true, "(*sync.RWMutex).RUnlock": true,
 	"(*sync.WaitGroup).Add": true, "(*sync.WaitGroup).Done": true, "(*sync.WaitGroup).Wait": true,
-	"(*sync.Once).Do": false,
+	"(*sync.Once).Do":  false,
 	"(*sync.Pool).Put": true, "(*sync.Pool).Get": true, "(*sync.Cond).Broadcast": true, "(*sync.Cond).Signal": true,
 	"errors.New": true, "fmt.Errorf": true,
 }
@@ -235,6 +235,17 @@ func (e *Enc) callSiteLets(fr *Frame, fn *ssa.Function, ins *ssa.Call, args []Va
 				rv.Typ = ins.Type()
 			}
 			sc.vars["$result"] = rv
+			// a multi-valued result: $result1, $result2, ... are its components
+			if rv.Tup != nil {
+				if tt, ok := ins.Type().(*types.Tuple); ok {
+					for k, comp := range rv.Tup {
+						if k < tt.Len() && comp.Typ == nil {
+							comp.Typ = tt.At(k).Type()
+						}
+						sc.vars[fmt.Sprintf("$result%d", k+1)] = comp
+					}
+				}
+			}
 		}
 		for i, a := range args {
 			a.Typ = fn.Params[i].Type()
@@ -556,7 +567,31 @@ func (e *Enc) applyContract(fr *Frame, ct *FuncContract, fn *ssa.Function, sig *
 		post.vars[k] = v
 	}
 	e.bindResults(post, sig, res)
+	// postconditions that mention the callee's own call-site snapshots (`at call ... let x`) or
+	// locals cannot be stated at a call site; they are skipped there (assuming less is sound)
+	calleeLets := map[string]bool{}
+	for _, cs := range ct.Calls {
+		for _, l := range cs.Lets {
+			calleeLets[l.Label] = true
+		}
+	}
+	for _, cu := range ct.Cuts {
+		for _, l := range cu.Lets {
+			calleeLets[l.Label] = true
+		}
+	}
 	for _, en := range ct.Ensures {
+		skip := false
+		if len(calleeLets) > 0 {
+			for id := range calleeLets {
+				if mentionsIdent(en.Src, id) {
+					skip = true
+				}
+			}
+		}
+		if skip {
+			continue
+		}
 		t := e.evalBool(post, en.E)
 		e.assert(Implies(guard, t))
 	}
@@ -906,4 +941,20 @@ func closureOnlyOrCopied(al *ssa.Alloc) bool {
 		}
 	}
 	return true
+}
+
+// mentionsIdent reports whether the clause text src mentions the identifier id as a whole word.
+func mentionsIdent(src, id string) bool {
+	for i := 0; i+len(id) <= len(src); i++ {
+		if src[i:i+len(id)] != id {
+			continue
+		}
+		isW := func(c byte) bool {
+			return c == '_' || c >= '0' && c <= '9' || c >= 'a' && c <= 'z' || c >= 'A' && c <= 'Z'
+		}
+		if (i == 0 || !isW(src[i-1])) && (i+len(id) == len(src) || !isW(src[i+len(id)])) {
+			return true
+		}
+	}
+	return false
 }
